@@ -254,6 +254,15 @@ def main():
             json.dump(baseline_all, f, indent=0, sort_keys=True)
     wall = time.time() - t_start
     level = call.LEVEL.get(prop, "proof")
+    explain = call.EXPLAIN.get(prop, "")
+    try:
+        man = json.load(open(os.path.join(ROOT, "MANIFEST.json")))
+        for ch in man.get("checks", []):
+            if ch["property_id"] == prop:
+                level = ch["level_claimed"]["category"]
+                explain = explain or (ch["level_claimed"]["text"] + " | trusted: " + ch["level_note"])
+    except Exception:
+        pass
     assumptions = list(LIB_ASSUMPTIONS) + call.ASSUMPTIONS.get("*", []) + call.ASSUMPTIONS.get(prop, [])
     for r in results:
         for asm in (r.get("info") or {}).get("assumptions", []):
@@ -269,7 +278,7 @@ def main():
             "checker_cmd": f"python3-vt checks/check.py {prop} --tier {tier}",
             "trusted_base": ["pyvc symbolic executor (/verif/pyvc) and its encoding of the Python subset", "z3 5.1 / cvc5 1.0.3 / z3 4.8.12",
                              "assumed library and interface contracts listed under assumptions"],
-            "explanation": call.EXPLAIN.get(prop, ""),
+            "explanation": explain or "contract-based deductive verification, see DESIGN.md",
             "functions_under_contract": functions,
             "backends": backends, "solver_time_s": round(solver_time, 3),
             "lemmas": lemma_results,
